@@ -56,7 +56,7 @@ def views(p, analysis):
                                     len(p.properties.non_setstate_calls),
                                     # (normally names; an AST node when the import target is not a plain name: compared
                                     #  by structure, never by identity)
-                                    tuple(sorted(x if isinstance(x, str) else sdump(x) if hasattr(x, "_fields") else repr(x)
+                                    tuple(sorted(x if isinstance(x, str) else sdump(x) if hasattr(x, "_fields") else "<" + type(x).__name__ + ">"
                                                  for x in p.properties.likely_safe_imports)))),
         "has": safe(lambda: (p.has_import, p.has_call, p.has_non_setstate_call)),
         "imports": safe(lambda: (tuple(_modname(n) for n in p.unsafe_imports()),
